@@ -68,11 +68,16 @@ func childNames(kind string, rot int) []string {
 	// that treats such a segment as an index finds the wrong entry
 	if kind == "hamt" {
 		c := gen.Colliders("k", 12, 3)
+		// sp: a member whose proper suffix (absent) hashes into the same buckets
+		// for 4 levels: the lookup of the suffix ends at the member's link
+		sp, _ := gen.SuffixPair(12, c[0])
 		return [][]string{
 			{c[0], c[1], c[0] + " ", c[2], "é", ".."},
 			{"1", c[0], c[1], "0", "-1", c[2]},
 			{c[0], c[1], "07", "..", c[2], "2"},
-		}[rot%3]
+			{sp, c[0], c[1], "00", c[2], "é"},
+			{"00", sp, c[0], c[1], "2", c[2]},
+		}[rot%5]
 	}
 	return [][]string{
 		{"a", "a ", "é", " a", "..", "%2F"},
@@ -80,6 +85,16 @@ func childNames(kind string, rot int) []string {
 		{"%2F", "..", " a", "a", "2", "é"},
 		{"2024", "a", "2", "1", "a ", "0"},
 	}[rot%4]
+}
+
+// nameRot picks the name list of a directory from its shape (FNV of the
+// spec), so that every list is used by many shapes of every size.
+func nameRot(t treeSpec) int {
+	h := uint32(2166136261)
+	for _, b := range []byte(t.String()) {
+		h = (h ^ uint32(b)) * 16777619
+	}
+	return int(h>>8) % 60
 }
 
 // enumTrees lists every tree with at most maxNodes nodes whose children are in
@@ -163,7 +178,7 @@ func (t treeSpec) build(s *store.Store, seed *int) (*builtTree, error) {
 		return &builtTree{Kind: "sym", Cid: l.(cidlink.Link).Cid, Size: sz, Content: []byte(target)}, nil
 	case "dir", "dirU", "hamt":
 		bt := &builtTree{Kind: t.Kind, Children: map[string]*builtTree{}}
-		names := childNames(t.Kind, len(t.String())+len(t.Children))
+		names := childNames(t.Kind, nameRot(t))
 		var es []gen.DirEntry
 		for i, ch := range t.Children {
 			b, err := ch.build(s, seed)
@@ -278,6 +293,13 @@ func pathVariants(segs []string) (same []string, other []string) {
 			other = append(other, head+last[:len(last)-1])
 		}
 		other = append(other, head+last+"x", head+strings.ToUpper(last)+"_", head+"00"+last)
+		// every proper suffix of the last segment (a lookup that compares name
+		// tails instead of names would accept one that hashes alike)
+		for i := 1; i < len(last); i++ {
+			if last[i]&0xC0 != 0x80 { // rune boundary
+				other = append(other, head+last[i:])
+			}
+		}
 	}
 	return
 }
